@@ -329,7 +329,16 @@ pub fn run_main(def: PropDef) -> ! {
     // by the harness; the location is captured through util::catch.
     crate::util::install_quiet_panic_hook();
 
-    let mut out = (def.explore)(&ctx);
+    // A panic of the harness itself (not of the subject, which is always run under
+    // util::catch) is a machinery error, never a verdict and never an unexplained crash.
+    let mut out = match crate::util::catch(|| (def.explore)(&ctx)) {
+        Ok(o) => o,
+        Err(p) => {
+            let mut o = Outcome::default();
+            o.machinery(format!("the harness panicked at {}: {}", p.location, p.message));
+            o
+        }
+    };
     out.wall_s = ctx.elapsed();
     out.build = ctx.build.to_string();
 
